@@ -351,3 +351,75 @@ func checkNoStackAliasing(p *core.Prog, r *core.Result) {
 	}
 	r.Floor("R7.10", n, 3, "slices of the decoder's stack")
 }
+
+// checkInPlaceIdentity implements R7.11: a memoized container is one object shared by the memo and the
+// operand stack. A decoder case that pushes nothing (the in-place collectors APPENDS/SETITEMS/ADDITEMS, and
+// the pure pops) leaves the container on the stack, so it may only shorten the stack: writing any
+// operand-stack slot, or storing anything but a truncation of the stack into Decoder.stack, would replace
+// the object under its memo entry (later BINGETs then yield the orphaned, unfilled object).
+func checkInPlaceIdentity(p *core.Prog, r *core.Result, ops *opTable, dt *decoderTable) {
+	isStack := func(v ssa.Value) bool {
+		for depth := 0; depth < 4; depth++ {
+			if core.LoadOfField(v, pkgPickle, "Decoder", "stack") {
+				return true
+			}
+			sl, ok := v.(*ssa.Slice)
+			if !ok {
+				return false
+			}
+			v = sl.X
+		}
+		return false
+	}
+	n := 0
+	keys := make([]int64, 0, len(dt.Cases))
+	for k := range dt.Cases {
+		keys = append(keys, k)
+	}
+	sort.Slice(keys, func(i, j int) bool { return keys[i] < keys[j] })
+	for _, k := range keys {
+		dc := dt.Cases[k]
+		if len(dc.Pushes) != 0 {
+			continue
+		}
+		// appends to the stack that bypass push()
+		bypass := false
+		var bad []string
+		var badAt ssa.Instruction
+		mutates := false
+		for _, b := range dc.Region {
+			for _, in := range b.Instrs {
+				switch x := in.(type) {
+				case *ssa.Store:
+					if ia, ok := x.Addr.(*ssa.IndexAddr); ok && isStack(ia.X) {
+						bad = append(bad, "overwrites an operand-stack slot")
+						badAt = in
+					}
+					if core.IsField(x.Addr, pkgPickle, "Decoder", "stack") {
+						if sl, ok := x.Val.(*ssa.Slice); !ok || !isStack(sl.X) {
+							bypass = true
+							bad = append(bad, "stores something other than a truncation of the stack into Decoder.stack")
+							badAt = in
+						}
+					}
+				case *ssa.Call:
+					if x.Call.IsInvoke() || (core.Callee(x) != nil && core.Callee(x).Signature.Recv() != nil && core.Callee(x).Pkg != nil && core.Callee(x).Pkg.Pkg.Path() != pkgPickle) {
+						mutates = true
+					}
+				}
+			}
+		}
+		_ = bypass
+		if !mutates && len(bad) == 0 {
+			continue // pure pops, STOP, PROTO…
+		}
+		n++
+		construct := "pickle.(*Decoder).decode#case-" + ops.name(k) + ":in-place"
+		if len(bad) == 0 {
+			r.OK("R7.11", construct, p.InstrPos(dc.Entry.Instrs[0]), "fills the container found on the stack and only shortens the stack: the object stays the one the memo refers to")
+		} else {
+			r.Bad("R7.11", construct, p.InstrPos(badAt), "a case that pushes nothing "+strings.Join(bad, " and ")+": the container was memoized when it was created, so the memo keeps the old object and every later reference (sharing, self-reference) decodes to the unfilled one")
+		}
+	}
+	r.Floor("R7.11", n, 2, "in-place decoder cases")
+}
